@@ -75,6 +75,10 @@ pub mod dom {
 
     pub type ExpandedName = (String, Option<String>, Option<String>);
 
+    // DOM nodeType / nodeName of a node: uninterpreted (namespace nodes answer Attribute in this library)
+    pub uninterp spec fn node_type_of(n: XmlNode) -> NodeType;
+    pub uninterp spec fn node_name_of(n: XmlNode) -> Seq<char>;
+
     // the document-order key of a node (info::HasContext::order through dom::XmlNode::order): uninterpreted
     pub uninterp spec fn order_key(n: XmlNode) -> usize;
 
@@ -111,12 +115,14 @@ pub mod dom {
 
         #[verifier::external_body]
         pub fn node_type(&self) -> (r: NodeType)
+            ensures r == node_type_of(*self),
         {
             unimplemented!()
         }
 
         #[verifier::external_body]
         pub fn node_name(&self) -> (r: String)
+            ensures r@ == node_name_of(*self),
         {
             unimplemented!()
         }
@@ -634,6 +640,7 @@ pub fn shim_reverse(v: &mut Vec<dom::XmlNode>)
 }
 #[verifier::external_body]
 pub fn shim_is_node_type(node: &dom::XmlNode, t: dom::NodeType) -> (r: bool)
+    ensures r == (dom::node_type_of(*node) == t),
 {
     unimplemented!() /* node.node_type() == t */
 }
@@ -660,6 +667,7 @@ pub fn shim_not_found_variable(name: &nom::model::QName) -> (r: error::Error)
 // node.node_name() == *target  (String == str)
 #[verifier::external_body]
 pub fn shim_string_eq_str(a: &String, b: &str) -> (r: bool)
+    ensures r == (a@ == b@),
 {
     a.as_str() == b
 }
@@ -833,8 +841,15 @@ def build():
         loops={0: dict(invariant=[('C19:ctx', 'same_ctx(*context, *old(context))')]),
                1: dict(invariant=[('C19:ctx', 'same_ctx(*context, *old(context))')]),
                2: dict(invariant=PRED_LOOP_CTX)})
+    NT = 'dom::node_type_of(node)'
     fns['eval_node_test'] = Fn(
-        FE, None, 'eval_node_test', props=P, safety_props=['C06'], attrs=[NODEC], ensures=[C19],
+        FE, None, 'eval_node_test', props=P, safety_props=['C06'], attrs=[NODEC],
+        ensures=[C19,
+                 ('C05:star_matches_the_principal_node_types_only', f'test is Name && test->Name_0 is All ==> r is Ok && r->Ok_0 == ({NT} == dom::NodeType::Element || {NT} == dom::NodeType::Attribute)'),
+                 ('C05:node_type_tests_select_by_node_type',
+                  f'test is Type ==> r is Ok && r->Ok_0 == (match test->Type_0 {{ expr::NodeType::Comment => {NT} == dom::NodeType::Comment, expr::NodeType::PI => {NT} == dom::NodeType::PI,'
+                  f' expr::NodeType::Node => true, expr::NodeType::Text => {NT} == dom::NodeType::Text || {NT} == dom::NodeType::EntityReference || {NT} == dom::NodeType::CData }})'),
+                 ('C05:processing_instruction_literal_selects_by_target', f'test is PI ==> r is Ok && r->Ok_0 == ({NT} == dom::NodeType::PI && dom::node_name_of(node) == test->PI_0@)')],
         rules=[Rule('R26', r'let uri_a = context\s*\.get_ns_uri\(Some\(prefix\)\)\s*\.ok_or_else\(\|\| error::Error::NotFoundNamespace\(prefix\.to_string\(\)\)\)\?;',
                     'let uri_a = shim_get_ns_uri(context, prefix)?;', 'Context::get_ns_uri (returns a borrow out of &mut self) + ok_or_else closure -> shim returning the URI or NotFoundNamespace'),
                Rule('R26', r'Ok\(Some\(uri_a\) == uri_b\.as_deref\(\)\)', 'Ok(shim_uri_eq(&uri_a, &uri_b))', 'Option<&str> comparison -> shim'),
